@@ -326,6 +326,50 @@ func C15(run *hx.Run) {
 				default:
 					run.Count("reread_cases_ok", 1)
 				}
+				// low-level API: inside ONE read transaction the first access is refused - and so must be every later one
+				if sw.refused {
+					img2 := append([]byte{}, b.img...)
+					pg2 := hx.NewMemPager(img2)
+					h2, err := openMem(pg2)
+					if err != nil {
+						continue
+					}
+					if r := c15ReadHandle(h2, b.tables, b.index); r.err != nil {
+						continue
+					}
+					pg2.Data[sw.off] = sw.val
+					if bump {
+						binary.BigEndian.PutUint32(pg2.Data[24:], binary.BigEndian.Uint32(pg2.Data[24:])+1)
+					}
+					if err := h2.low.RLock(); err == nil {
+						var e1 error
+						rows2 := 0
+						p, pm := safely(func() {
+							_, e1 = h2.low.Tables()
+							for try := 0; try < 2; try++ {
+								if t, err := h2.low.Table("t_plain"); err == nil {
+									t.Scan(func(int64, sdb.Record) bool { rows2++; return false })
+								}
+								if ix, err := h2.low.Index("ix_plain_a"); err == nil {
+									ix.Scan(func(sdb.Record) bool { rows2++; return false })
+								}
+							}
+						})
+						h2.low.RUnlock()
+						run.Eval(1)
+						run.DistinctN(1)
+						switch {
+						case p:
+							run.Violation(key+"/same-transaction/panic", pm, nil)
+						case e1 == nil:
+							run.Violation(key+"/same-transaction/first-access-accepted", fmt.Sprintf("header changed to %s: the first low-level access of the new transaction was not refused", sw.name), nil)
+						case rows2 > 0:
+							run.Violation(key+"/same-transaction/later-access-accepted", fmt.Sprintf("header changed to %s under an open handle: the first access of the transaction was refused (%v) but later accesses in the SAME transaction delivered %d rows", sw.name, e1, rows2), hx.M{"swap": sw.name, "bump": bump})
+						default:
+							run.Count("same_transaction_cases_ok", 1)
+						}
+					}
+				}
 			}
 		}
 	}
